@@ -1,5 +1,6 @@
 import QuillModel.Props.C09Backend
 import QuillModel.Backend.ConcRead
+import QuillModel.Backend.ConcDrain
 /-!
 # C09 — a blocked call resumes, while other threads keep logging
 
@@ -14,11 +15,11 @@ import QuillModel.Backend.ConcRead
   pass starts, with its front record past the grace period, has at least one more record in its transit buffer after the pass
   (the hard limit, the byte budget of one read and the soft limit cannot prevent it: the do-while reads one record first).
 
-Not proved (stated here as the remaining step): the run-level composition "after `|queue|` polls past the grace period the
-blocked caller's queue has been read" for arbitrary continuations. It needs the fact that the list `popped ++ buf` of a context
-only grows along *every* step of a poll with injections (one more pass of the poll skeleton for a relation); the two theorems
-above are its per-state and per-poll ingredients, and the blocked caller itself cannot refill its queue while it is parked.
-The batch-guard starvation of C06 does **not** apply here: reading happens in every poll before the guard is consulted.
+* `C09_blocked_queue_drains` / `C09_blocked_call_resumes_concurrent` — the composition over **arbitrary continuations**: while
+  the blocked owner enqueues nothing (it is parked), every poll past the grace period takes at least one record out of its
+  queue, whatever the other threads do between and inside the polls; after `|queue|` polls the queue has been read and the
+  retry is granted. The batch-guard starvation of C06 does **not** apply here: reading happens in every poll before the guard
+  is consulted — a blocked log call always resumes as long as the backend keeps polling.
 
 Property theorems only; helpers in `Backend/ConcRead.lean`, `Backend/ResumeProgress.lean`.
 -/
@@ -67,6 +68,51 @@ theorem C09_pass_reads_every_ripe_queue (s0 : BSt) (h0 : Start s0) (ops : List O
   have hI' : PIo (runOps s0 ops).cfg fl { runOps s0 ops with siteCnt := [] } := hI.frame rfl
   exact populate_reads (fun _ _ _ _ _ site hh => hh.runInj table site) (injGrow_runInj table) hI' i r rest hq hripe
 
+/-- **The queue of a blocked owner drains under arbitrary concurrency.** After any schedule `pre`, for **every** continuation
+    `suffix` (frontend operations of any threads, polls with any injections) that leaves the backend running and in which
+    context `i` accepts nothing more (its owner is blocked): if everything `i` accepted is past its grace period at the end of
+    `pre`, then its queue has lost at least one record per poll of `suffix`, or is empty. -/
+theorem C09_blocked_queue_drains (s0 : BSt) (h0 : StartF s0) (pre suffix : List Op) (i : Nat)
+    (hrun : (runOps s0 (pre ++ suffix)).backendGone = false)
+    (hripe : ∀ r ∈ ((runOps s0 pre).th i).accepted, r.ts + s0.cfg.grace ≤ (runOps s0 pre).now)
+    (hacc : ((runOps s0 (pre ++ suffix)).th i).accepted.length = ((runOps s0 pre).th i).accepted.length) :
+    ((runOps s0 (pre ++ suffix)).th i).qStmts.length + pollCount suffix ≤ ((runOps s0 pre).th i).qStmts.length ∨
+    ((runOps s0 (pre ++ suffix)).th i).qStmts = [] := by
+  have e : runOps s0 (pre ++ suffix) = runOps (runOps s0 pre) suffix := by simp [runOps, List.foldl_append]
+  have hc := (start_GI h0.start).cfg_runOps pre
+  rw [e] at hrun hacc ⊢
+  exact drain_conc i suffix (runOps s0 pre) ((start_GI h0.start).runOps pre) ((start_FI h0).runOps pre) hrun
+    (by rw [hc]; exact hripe) hacc
+
+/-- **C09 under concurrency: a blocked log call resumes while other threads keep logging.** Blocking queue with the
+    publish-when-drained rule. After any schedule `pre`, for **every** continuation `suffix` — other threads logging, registering,
+    exiting, between the polls and at every hook site inside them — that leaves the backend running and after which actor `a`
+    is (still) parked on the retry of a refused reservation for `st` (which fits an empty queue), its context `i` having accepted
+    nothing since the end of `pre` (it is blocked): if everything the context accepted was past its grace period at the end of
+    `pre` and `suffix` contains at least as many polls as the queue held records, then `a`'s `resume` is granted — `st` is
+    appended to the accepted history, and a `log` call returns (`ret=1`). No quietness, no bound on what other threads do. -/
+theorem C09_blocked_call_resumes_concurrent (s0 : BSt) (h0 : StartF s0) (pre suffix : List Op) (a : Nat) (x : Actor)
+    (st : Stmt) (k i : Nat) (hdp : s0.cfg.qp.drainPublish = true) (hblk : s0.cfg.dropping = false)
+    (hx : (runOps s0 (pre ++ suffix)).actor a = some x) (hp : x.pend = .retry st k) (hi : x.ctx = some i)
+    (hsz : st.size ≤ s0.cfg.qcap)
+    (hrun : (runOps s0 (pre ++ suffix)).backendGone = false)
+    (hripe : ∀ r ∈ ((runOps s0 pre).th i).accepted, r.ts + s0.cfg.grace ≤ (runOps s0 pre).now)
+    (hacc : ((runOps s0 (pre ++ suffix)).th i).accepted.length = ((runOps s0 pre).th i).accepted.length)
+    (hn : ((runOps s0 pre).th i).qStmts.length ≤ pollCount suffix) :
+    ((resume (runOps s0 (pre ++ suffix)) a).1.th (ensureCtx (runOps s0 (pre ++ suffix)) a).2).accepted =
+      ((ensureCtx (runOps s0 (pre ++ suffix)) a).1.th (ensureCtx (runOps s0 (pre ++ suffix)) a).2).accepted ++
+        [{ st with enqAt := (runOps s0 (pre ++ suffix)).now }] ∧
+    (st.kind = .log → k = 0 ∨ k = 5 →
+      (resume (runOps s0 (pre ++ suffix)) a).2 = obsLog st k (some true) st.size ∧
+      pendOf (resume (runOps s0 (pre ++ suffix)) a).1 a = some .none) := by
+  apply C09_retry_granted_once_queue_read s0 h0 (pre ++ suffix) a x st k hdp hblk hx hp hsz
+  intro j hj
+  rw [hi] at hj
+  cases hj
+  rcases C09_blocked_queue_drains s0 h0 pre suffix i hrun hripe hacc with h | h
+  · exact List.eq_nil_of_length_eq_zero (by omega)
+  · exact h
+
 /-! ### non-vacuity -/
 
 /-- the blocking scenario of `Props/C09Backend.lean` (a 1024-byte queue filled by thread 1, its second call refused and parked),
@@ -78,7 +124,11 @@ example :
     let s := runOps (c09Init true) ops
     (s.actor 1).map (fun x => (x.pend matches .retry _ 0, x.ctx)) = some (true, some 0) ∧
     (s.th 0).qStmts.length = 0 ∧ (s.th 1).accepted.length = 4 ∧
-    (resume s 1).2 = "id=1 ret=1 ev=1 bytes=1009" := by
+    (resume s 1).2 = "id=1 ret=1 ev=1 bytes=1009" ∧
+    -- the hypotheses of `C09_blocked_call_resumes_concurrent` with `pre = c09Block`, `i = 0`
+    s.backendGone = false ∧ (c09Init true).cfg.grace = 0 ∧
+    (s.th 0).accepted.length = ((runOps (c09Init true) c09Block).th 0).accepted.length ∧
+    ((runOps (c09Init true) c09Block).th 0).qStmts.length ≤ pollCount (ops.drop c09Block.length) := by
   decide +kernel
 
 /-- non-vacuity of `C09_pass_reads_every_ripe_queue`: in the blocked state the queue of context 0 holds one record (972-byte
